@@ -19,7 +19,22 @@ TB = ["correspondence harnesses harness/overlay/index/zz_verif_c23_test.go, harn
       "shard selection/rewrite do not change the union), files compared as a set ordered by file id"]
 
 
+def _apply_replay(ctx):
+    """--replay <file>: re-run the check with the seed recorded in the replay (the failing case index and
+    inputs are in the file; the harness is deterministic in the seed)."""
+    if ctx.replay:
+        try:
+            import json as _json
+            d = _json.load(open(ctx.replay))
+            seed = (d.get("replay") or {}).get("seed")
+            if seed is not None:
+                ctx.seed = int(seed)
+        except Exception:
+            pass
+
+
 def run(ctx):
+    _apply_replay(ctx)
     pid = ctx.pid
     proofs = vf.coq_props(ctx, pid)
     broken, failures = [], []
@@ -39,10 +54,10 @@ def run(ctx):
 
     levels = [
         dict(name="shard", pkg="index", run="TestVerifC23$", files=["index/zz_verif_c23_test.go"],
-             n=ctx.n(240, 6000), case_type="c23case", fn="c23_mismatches", out="out-shard.jsonl"),
+             n=ctx.n(200, 6000), case_type="c23case", fn="c23_mismatches", out="out-shard.jsonl"),
         dict(name="sharded", pkg="search", run="TestVerifC23S$",
              files=["search/zz_verif_c23s_test.go", "search/zz_verif_shardgen_test.go"],
-             n=ctx.n(100, 2500), case_type="c23scase", fn="c23s_mismatches", out="out-sharded.jsonl"),
+             n=ctx.n(72, 2500), case_type="c23scase", fn="c23s_mismatches", out="out-sharded.jsonl"),
     ]
     allcases, evaluated, mism = [], 0, 0
     for lv in levels:
